@@ -239,7 +239,8 @@ def main(prop, tier):
         return c, res, chunks
 
     # state caps: a broken implementation may have an unbounded state graph; a truncated exploration is still judged
-    explores = [(3, 2, 2, 1, 120000), (4, 2, 3, 0, 120000), (3, 3, 2, 0, 120000)]
+    # (the last one: refusals between a write's map and unmap, with room for a reader that lags behind a wrap)
+    explores = [(3, 2, 2, 1, 120000), (4, 2, 3, 0, 120000), (3, 3, 2, 0, 120000), (5, 1, 2, 1, 120000)]
     if thorough:
         explores += [(5, 2, 4, 0, 2 * 10**6), (4, 2, 3, 1, 10**6), (4, 3, 2, 0, 3 * 10**5), (6, 2, 3, 0, 10**6), (7, 2, 6, 0, 5 * 10**5)]
 
